@@ -1,8 +1,8 @@
 --------------------------- MODULE Trace_DnsCache ---------------------------
 (* Property monitor for C38 over the client-visible events of real executions
    (harness/src/bin/vh_dnssrv.rs, c38): only `acked`, `rstart`, `rans`, `rpc` of DnsCache are
-   driven, from the logged call starts / answers / acknowledgements; NoStaleAnswer (the C38
-   invariant of DnsCache) is evaluated after every answer.  Many executions are concatenated,
+   driven, from the logged call starts / answers / acknowledgements; Older(answer, demanded), the per-lookup test of
+   NoStaleAnswer (the C38 invariant of DnsCache), is evaluated after every answer.  Many executions are concatenated,
    separated by `reset` events; the verdict of each answer is printed (a violated invariant
    would stop TLC at the first one).
 
@@ -32,7 +32,7 @@ TRDone == /\ IsEvent("rdone") /\ Rec[l].r \in Resolvers
           /\ rans' = [rans EXCEPT ![Rec[l].r] = Rec[l].ans] /\ rpc' = [rpc EXCEPT ![Rec[l].r] = "done"]
           /\ UNCHANGED <<rstart, acked, cs>> /\ UNCHANGED Others
           /\ PrintT(<<"REPLAY", ToJson([case |-> cs, r |-> Rec[l].r, ans |-> Rec[l].ans,
-                                        demanded |-> rstart[Rec[l].r], stale |-> ~NoStaleAnswer'])>>)
+                                        demanded |-> rstart[Rec[l].r], stale |-> Older(Rec[l].ans, rstart[Rec[l].r])])>>)
 TPStart == /\ IsEvent("pstart") /\ UNCHANGED <<rpc, rstart, rans, acked, cs>> /\ UNCHANGED Others
 TPDone == /\ IsEvent("pdone")
           /\ acked' = IF Rec[l].res THEN Max(acked, Rec[l].v) ELSE acked
